@@ -184,6 +184,13 @@ package templ
 //@       && tr(w)[len(old(tr(w)))] == evError(componentHandlerErrorMessage, 500))
 
 // The documented contrast: the streaming handler commits headers and status first.
+// the dispatcher: the streamed path (which commits the status before rendering) is taken only when streaming was
+// asked for; everything else is buffered
+//@ func (ComponentHandler) ServeHTTP [C11]
+//@   requires r != nil
+//@   modifies *
+//@   assert before ch.ServeHTTPStreamed#1: ch.StreamResponse
+//@   assert before ch.ServeHTTPBuffered#1: !ch.StreamResponse
 //@ func (*ComponentHandler) ServeHTTPStreamed [C11]
 //@   requires ch != nil && r != nil
 //@   modifies tr(w), doc(w), failedDuring, *cv(), reach(r)
